@@ -121,7 +121,32 @@ func runC05(c *Ctx) {
 		c.fail("C05.R1", "visitor "+m.fnName(setup), "no section visitor closure found in setupPDTForKernel", m.pos(setup.Pos()))
 		return
 	}
-	isKernelPDT := func(v ssa.Value) bool { return v == ssa.Value(kernelPDT) || isLoadOfGlobal(v, kernelPDT) }
+	// kernelPDT itself, its value, or a local copy of its value that was taken after
+	// kernelPDT.Init (the methods have value receivers: a copy taken earlier would
+	// name the uninitialised table)
+	var gInit *IG
+	isKernelPDT := func(v ssa.Value) bool {
+		if v == ssa.Value(kernelPDT) || isLoadOfGlobal(v, kernelPDT) {
+			return true
+		}
+		w := through(v)
+		ld, ok := w.(*ssa.UnOp)
+		if !ok || !isLoadOfGlobal(w, kernelPDT) || ld.Parent() != setup {
+			return false
+		}
+		if gInit == nil {
+			gInit = newIG(m, setup, nil)
+		}
+		n, inG := gInit.Idx[ld]
+		if !inG {
+			return false
+		}
+		after, _ := gInit.MustPassBefore(n, func(k int) bool {
+			cc := callCommon(gInit.Ins[k])
+			return cc != nil && m.callsTo(gInit.Ins[k], pdtInit) && cc.Args[0] == ssa.Value(kernelPDT)
+		})
+		return after
+	}
 	g := newIG(m, vis, nil)
 	var maps []int
 	for _, n := range g.callNodes(pdtMap) {
@@ -315,14 +340,17 @@ func runC05(c *Ctx) {
 		// with Present|RW, for the address A = earlyReserveLastUsed + 4096*T, while
 		// A < tempMappingAddr.
 		fl, okf := constUint64(a[3])
+		// the frame: the translated address / PageSize, however it is spelled
 		var tc *ssa.Call
-		fv := stripConv(a[2])
-		if sh, ok := fv.(*ssa.BinOp); ok {
-			k, okk := constUint64(sh.Y)
-			if sh.Op == token.SHR && okk && k == 12 || sh.Op == token.QUO && okk && k == pageSize {
-				if call, ok := m.resultOf(sh.X, translate, 0); ok {
-					tc = call
-				}
+		zt := &Polyizer{}
+		frameP := zt.Of(a[2])
+		for _, in := range gs.Ins {
+			v, ok := in.(ssa.Value)
+			if !ok || !isIntegral(v.Type()) {
+				continue
+			}
+			if call, ok := m.resultOf(v, translate, 0); ok && frameP.equal(pFdiv(12, zt.Of(v))) {
+				tc = call
 			}
 		}
 		lf, inLoop := gs.loopFormAt(z, gs.Ins[cn].Block())
